@@ -53,9 +53,62 @@ theorem rwp_bind_id {α β γ : Type} {rn : α → α} {m₁ m₂ : M α} {f₁ 
   subst b; subst u₁; subst u₂
   exact hf a k
 
+/-- the same, with a unary fact about the left computation -/
+theorem rwp_bind_id_u {α β γ : Type} {rn : α → α} {m₁ m₂ : M α} {f₁ : α → M β} {f₂ : α → M γ} {s₁ s₂ : St}
+    {Q : β → St → γ → St → Prop} {U : α → St → Prop} (hu : wp m₁ s₁ U) (hm : IdRel P.ρ rn m₁ m₂)
+    (hs : IdSync P.ρ s₁ s₂)
+    (hf : ∀ a k, U a { s₁ with next := s₁.next + k } →
+      rwp (f₁ a) (f₂ (rn a)) { s₁ with next := s₁.next + k } { s₂ with next := s₂.next + k } Q) :
+    rwp (m₁ >>= f₁) (m₂ >>= f₂) s₁ s₂ Q := by
+  rw [rwp_bind]
+  intro a u₁ b u₂ h1 h2
+  obtain ⟨hb, k, e1, e2⟩ := hm s₁ s₂ hs a u₁ b u₂ h1 h2
+  have hua := wp_of_run hu h1
+  subst b; subst u₁; subst u₂
+  exact hf a k hua
+
 theorem bump_asim {s₁ s₂ : St} (h : ASim P s₁ s₂) (k : Nat) :
     ASim P { s₁ with next := s₁.next + k } { s₂ with next := s₂.next + k } :=
   h.bumps ⟨k, rfl, rfl⟩
+
+theorem connectLoose_dexitUid (n : NodeM) (d : Dest) : (n.connectLoose d).dexitUid = n.dexitUid := by
+  unfold NodeM.connectLoose
+  split
+  · split <;> rfl
+  · rfl
+  · rfl
+
+/-- `fresh` followed by anything: the identifier drawn is known -/
+theorem rwp_bind_fresh {β γ : Type} {f₁ : Uid → M β} {f₂ : Uid → M γ} {s₁ s₂ : St}
+    {Q : β → St → γ → St → Prop} (hs : IdSync P.ρ s₁ s₂)
+    (hf : rwp (f₁ (tid s₁.next)) (f₂ (P.ρ (tid s₁.next))) { s₁ with next := s₁.next + 1 }
+      { s₂ with next := s₂.next + 1 } Q) :
+    rwp (fresh >>= f₁) (fresh >>= f₂) s₁ s₂ Q := by
+  rw [rwp_bind, rwp_iff_wp, wp_fresh']
+  rw [wp_fresh']
+  have := hs.ids 0
+  simp only [Nat.add_zero] at this
+  rw [← this]
+  exact hf
+
+/-- the node `newRouterNode` builds -/
+def mkRouterNode (u : Uid) (kind : NodeKind) (r : RouterM) (e : Uid) : NodeM :=
+  { uid := u, kind := kind, actions := [], router := some r, dexitUid := e, dexitDest := .none }
+
+/-- `newRouterNode` followed by anything: the node built is known -/
+theorem rwp_bind_newRouterNode {β γ : Type} (u : Uid) (kind : NodeKind) (r : RouterM)
+    {f₁ : NodeM → M β} {f₂ : NodeM → M γ} {s₁ s₂ : St}
+    {Q : β → St → γ → St → Prop} (hs : IdSync P.ρ s₁ s₂)
+    (hf : rwp (f₁ (mkRouterNode u kind r (tid s₁.next)))
+      (f₂ (rnNode P.ρ (mkRouterNode u kind r (tid s₁.next))))
+      { s₁ with next := s₁.next + 1 } { s₂ with next := s₂.next + 1 } Q) :
+    rwp (newRouterNode u kind r >>= f₁) (newRouterNode (P.ρ u) kind (rnRouter P.ρ r) >>= f₂) s₁ s₂ Q := by
+  rw [rwp_bind, rwp_iff_wp, wp_newRouterNode]
+  rw [wp_newRouterNode]
+  have := hs.ids 0
+  simp only [Nat.add_zero] at this
+  rw [← this]
+  exact hf
 
 /-- an identifier-only operation as an arena-level operation -/
 theorem arel_of_id {α : Type} {rn : α → α} {m₁ m₂ : M α} (hm : IdRel P.ρ rn m₁ m₂) {s₁ s₂ : St}
@@ -184,7 +237,7 @@ theorem connectNode_rel (ok : P.Ok) {s₁ s₂ : St} (h : ASim P s₁ s₂) {i :
   intro n t₁ n' t₂ ⟨hn', hn, e1, e2⟩
   subst n'; subst t₁; subst t₂
   rw [rwp_iff_wp, wp_setNode, wp_setNode, rnNode_connectLoose]
-  exact ⟨trivial, h.setNode ok hd hn, ⟨rfl, rfl, rfl⟩, ⟨rfl, rfl, rfl⟩⟩
+  exact ⟨trivial, h.setNode ok hd hn (.inl (connectLoose_dexitUid n d)), ⟨rfl, rfl, rfl⟩, ⟨rfl, rfl, rfl⟩⟩
 
 /-- loop invariant of arena-level loops: simulation, scope unchanged w.r.t. the start -/
 def AInvL (P : Params) (s₁ s₂ : St) : St → St → Prop := fun t₁ t₂ => ASim P t₁ t₂ ∧ SEq s₁ t₁ ∧ SEq s₂ t₂
@@ -272,7 +325,7 @@ theorem updSwitch_rel (ok : P.Ok) {s₁ s₂ : St} (h : ASim P s₁ s₂) {i : N
       refine rwp_bind_id (hf r) h.idSync ?_
       intro r' k
       rw [rwp_iff_wp, wp_setNode, wp_setNode]
-      exact ⟨trivial, (bump_asim h k).setNode ok hd hn (n' := { n with router := some (.sw r') }),
+      exact ⟨trivial, (bump_asim h k).setNode ok hd hn (n' := { n with router := some (.sw r') }) (.inl rfl),
         ⟨rfl, rfl, rfl⟩, ⟨rfl, rfl, rfl⟩⟩
 
 theorem setCatDestByName_rel (ok : P.Ok) (r : SwitchR) (name : Str) (d : Dest) :
@@ -297,10 +350,10 @@ theorem rowExitBlank_rel (ok : P.Ok) {s₁ s₂ : St} (h : ASim P s₁ s₂) {i 
   cases hk : n.kind with
   | basic =>
     simp only []
-    refine rwp_bind_id IdRel.fresh h.idSync ?_
-    intro e k
+    refine rwp_bind_fresh h.idSync ?_
     rw [rwp_iff_wp, wp_setNode, wp_setNode]
-    have := (bump_asim h k).setNode ok hd hn (n' := { n with dexitUid := e, dexitDest := d })
+    have := (bump_asim h 1).setNode ok hd hn (n' := { n with dexitUid := tid s₁.next, dexitDest := d })
+      (.inr ⟨s₁.next, by simp, rfl⟩)
     rw [hk] at this
     exact ⟨trivial, this, ⟨rfl, rfl, rfl⟩, ⟨rfl, rfl, rfl⟩⟩
   | enter => exact rwp_fail_left _ _ _ _ _
@@ -353,6 +406,7 @@ theorem rowExitNoResp_rel (ok : P.Ok) {s₁ s₂ : St} (h : ASim P s₁ s₂) {i
           rw [rwp_iff_wp, wp_setNode, wp_setNode]
           refine ⟨trivial, ?_, ⟨rfl, rfl, rfl⟩, ⟨rfl, rfl, rfl⟩⟩
           have := h.setNode ok hd hn (n' := { n with router := some (.sw { r with noResp := some { nr with dest := d } }) })
+            (.inl rfl)
           rw [hw] at this
           exact this
 
